@@ -1,2 +1,61 @@
 //! Verification harnesses compiled into heathcliff::app/lwe as child module `verif_v`.
 #![allow(unused, dead_code, non_snake_case)]
+use super::*;
+
+#[cfg(kani)]
+mod proofs {
+    use super::*;
+    use crate::verif_v::lits;
+    use crate::text::verif_v::mk_ciphertext;
+    use crate::evaluator::verif_v::mk_evaluator;
+
+    /// coefficient k of a*s in Z_q[X]/(X^4+1)
+    fn negacyclic_coeff(a: &[u64; 4], s: &[u64; 4], k: usize, q: u64) -> u64 {
+        let mut acc = 0u64; let mut j = 0;
+        while j < 4 {
+            let idx = (k + 4 - j) % 4;
+            let term = (a[j] * s[idx]) % q;
+            acc = if j > k { (acc + q - term) % q } else { (acc + term) % q };
+            j += 1;
+        }
+        acc
+    }
+
+    // @harness id=C19 tier=quick unwind=10 timeout=3000 fs=4096
+    // @desc extract_lwe(ct, i) followed by assemble_lwe gives a ciphertext whose CONSTANT phase coefficient under any secret key equals coefficient i of the original phase c0 + c1*s, for every index i; level, scale and correction factor are carried over
+    // @bounds BFV N=4, q={97,113} (checked in both RNS components), coefficient representation; all ciphertext residues, all ternary keys, every i in 0..3
+    // @funcs Evaluator::extract_lwe, LWECiphertext::assemble_lwe, Evaluator::assemble_lwe, polysmallmod::negacyclic_shift_p
+    // @stubs HeContext::get_context_data -> linear search over the literal chain; alloc::sync::Arc::drop_slow -> no-op
+    #[kani::proof]
+    #[kani::stub(crate::context::HeContext::get_context_data, crate::context::verif_v::get_context_data_stub)]
+    #[kani::stub(alloc::sync::Arc::drop_slow, crate::verif_v::arc_drop_slow_noop)]
+    fn c19_extract_assemble_phase() {
+        let ctx = lits::ctx_bfv_n4_2p1();
+        let ev = mk_evaluator(ctx.clone());
+        let pid = *ctx.first_parms_id();
+        let d: [u8; 16] = kani::any();
+        let mut v = [0u64; 16]; let mut k = 0;
+        while k < 16 { let q = if (k / 4) % 2 == 0 { 97 } else { 113 }; kani::assume((d[k] as u64) < q); v[k] = d[k] as u64; k += 1; }
+        let ct = mk_ciphertext(2, 2, 4, v.to_vec(), pid, 1.0, false, 1);
+        let i: usize = kani::any(); kani::assume(i < 4);
+        let lwe = match i { 0 => ev.extract_lwe(&ct, 0), 1 => ev.extract_lwe(&ct, 1), 2 => ev.extract_lwe(&ct, 2), _ => ev.extract_lwe(&ct, 3) };
+        let asm = ev.assemble_lwe(&lwe);
+        assert!(asm.size() == 2 && asm.data().len() == 16 && *asm.parms_id() == pid && !asm.is_ntt_form() && asm.scale() == 1.0 && asm.correction_factor() == 1);
+        let sk: [u8; 4] = kani::any(); kani::assume(sk[0] < 3 && sk[1] < 3 && sk[2] < 3 && sk[3] < 3);
+        let comp: usize = kani::any(); kani::assume(comp < 2);
+        let q = if comp == 0 { 97u64 } else { 113 };
+        let s = [if sk[0] == 2 { q - 1 } else { sk[0] as u64 }, if sk[1] == 2 { q - 1 } else { sk[1] as u64 }, if sk[2] == 2 { q - 1 } else { sk[2] as u64 }, if sk[3] == 2 { q - 1 } else { sk[3] as u64 }];
+        let c0 = [v[comp * 4], v[comp * 4 + 1], v[comp * 4 + 2], v[comp * 4 + 3]];
+        let c1 = [v[8 + comp * 4], v[8 + comp * 4 + 1], v[8 + comp * 4 + 2], v[8 + comp * 4 + 3]];
+        let want = (c0[i] + negacyclic_coeff(&c1, &s, i, q)) % q;
+        let a0 = [asm.data()[comp * 4], asm.data()[comp * 4 + 1], asm.data()[comp * 4 + 2], asm.data()[comp * 4 + 3]];
+        let a1 = [asm.data()[8 + comp * 4], asm.data()[8 + comp * 4 + 1], asm.data()[8 + comp * 4 + 2], asm.data()[8 + comp * 4 + 3]];
+        let got = (a0[0] + negacyclic_coeff(&a1, &s, 0, q)) % q;
+        kani::cover!(i == 3 && want != 0);
+        assert!(got == want);
+        assert!(a0[1] == 0 && a0[2] == 0 && a0[3] == 0);
+        std::mem::forget(ev); std::mem::forget(ctx);
+    }
+
+    #[cfg(test)] include!("/verif/.build/playback/app_lwe_v.rs");
+}
